@@ -119,6 +119,10 @@ class SFTPClient(BaseSFTP, ClosingContextManager):
         # this lock is held (e.g. rebinding a local in _read_response) runs
         # SFTPFile.__del__, which sends an async close from the same thread
         self._lock = threading.RLock()
+        # one request is written by one thread at a time: sock.send() may take
+        # only part of a packet (exhausted window) and the prefetch thread
+        # writes concurrently with the application's own requests
+        self._send_lock = threading.Lock()
         self._cwd = None
         # request # -> SFTPFile
         self._expecting = weakref.WeakValueDictionary()
@@ -892,7 +896,8 @@ class SFTPClient(BaseSFTP, ClosingContextManager):
             self.request_number += 1
         finally:
             self._lock.release()
-        self._send_packet(t, msg)
+        with self._send_lock:
+            self._send_packet(t, msg)
         return num
 
     def _read_response(self, waitfor=None):
